@@ -221,6 +221,9 @@ func evalProgram(w int, j job) {
 								continue // the program fails this oracle without any comment: reported there
 							}
 							ctx := ckNames[k] + "|after=" + roleAt(toks, at-1) + "|before=" + roleAt(toks, at)
+							if j.fam == "edge" {
+								ctx += "|edge" // positions inside an empty container are a class of their own
+							}
 							rc := replayCase{Src: src, Oracle: f.Oracle, Detail: f.Detail, Family: j.fam, Shape: shape, Layout: layoutNames[lay],
 								Comment: fmt.Sprintf("%s at boundary %d (after %s, before %s)", ckNames[k], at, roleAt(toks, at-1), roleAt(toks, at)), GoTest: goTest(src)}
 							if pct {
@@ -343,6 +346,12 @@ func main() {
 	inner := familyInner()
 	sort.SliceStable(inner, func(a, b int) bool { return len(inner[a].Toks) < len(inner[b].Toks) })
 	both := []int{layPretty, layCompact}
+	for _, s := range valueStmts() {
+		jobs = append(jobs, job{fam: "values", prog: program{Family: "values", Stmts: []stmt{s}}, layouts: both})
+	}
+	for _, s := range edgeStmts() {
+		jobs = append(jobs, job{fam: "edge", prog: program{Family: "edge", Stmts: []stmt{s}}, comments: 2, mutants: true, layouts: both, cLayouts: both})
+	}
 	for _, s := range inner {
 		j := job{fam: "inner", prog: program{Family: "inner", Stmts: []stmt{s}}, comments: 2, mutants: true, layouts: both, cLayouts: both}
 		j.pct = maxUnit(s) <= 1
@@ -352,12 +361,6 @@ func main() {
 			j.comments = 1
 		}
 		jobs = append(jobs, j)
-	}
-	for _, s := range valueStmts() {
-		jobs = append(jobs, job{fam: "values", prog: program{Family: "values", Stmts: []stmt{s}}, layouts: both})
-	}
-	for _, s := range edgeStmts() {
-		jobs = append(jobs, job{fam: "edge", prog: program{Family: "edge", Stmts: []stmt{s}}, comments: 2, mutants: true, layouts: both, cLayouts: both})
 	}
 	seqLen := 3
 	if cfg.Thorough() {
@@ -445,7 +448,7 @@ func main() {
 			n = int64(len(jobs))
 		}
 		rep.NotExhaustive(fmt.Sprintf("soft time box reached after %d of %d programs (inner family is enumerated first and was %s)", n, len(jobs),
-			map[bool]string{true: "complete", false: "incomplete"}[n > int64(len(inner))]))
+			map[bool]string{true: "complete", false: "incomplete"}[n > int64(len(inner)+len(valueStmts())+len(edgeStmts()))]))
 	}
 	finish(len(inner), len(alpha), seqLen, *dump, expired.Load())
 }
